@@ -177,3 +177,88 @@ pub fn b_ctor(which: u8) {
     }
     returned!();
 }
+
+// ------------------------------------------------------------------------------------------
+// State twins: the shape invariant after a caught panic / after a leaked drain.
+
+struct Faulty {
+    items: Vec<u8>,
+    claimed: usize,
+    calls: usize,
+    crash_at: usize,
+}
+impl Faulty {
+    fn tick(&mut self) {
+        if self.calls == self.crash_at {
+            self.calls += 1;
+            panic!("injected crash in caller-supplied iterator");
+        }
+        self.calls += 1;
+    }
+}
+impl Iterator for Faulty {
+    type Item = u8;
+    fn next(&mut self) -> Option<u8> {
+        self.tick();
+        if self.items.is_empty() { None } else { Some(self.items.remove(0)) }
+    }
+    fn size_hint(&self) -> (usize, Option<usize>) {
+        (self.claimed, Some(self.claimed))
+    }
+}
+impl DoubleEndedIterator for Faulty {
+    fn next_back(&mut self) -> Option<u8> {
+        self.tick();
+        self.items.pop()
+    }
+}
+impl ExactSizeIterator for Faulty {}
+
+fn inv_u8(t: &TooDee<u8>) -> bool {
+    let (c, r) = (t.num_cols(), t.num_rows());
+    c.checked_mul(r) == Some(t.data().len()) && (c == 0) == (r == 0) && t.rows().len() == r
+}
+
+/// op: 0 insert_row, 1 insert_col, 2 remove_row (drain leaked), 3 remove_col (drain leaked).
+/// draws: cols, rows, idx. For the inserts every crash point k and the claimed lengths
+/// {true, true-1, true+1, usize::MAX} are tried (a handful of concrete runs of the real code around
+/// the solver's witness); each run catches the panic and then checks the invariant.
+pub fn b_state(op: u8) {
+    let cols = nd::usize_();
+    let rows = nd::usize_();
+    let idx = nd::usize_();
+    nd::assume(cols <= 8 && rows <= 8 && (cols == 0) == (rows == 0));
+    let mk = || if cols == 0 { TooDee::<u8>::default() } else { TooDee::from_vec(cols, rows, grid(cols, rows)) };
+    if op >= 2 {
+        let mut t = mk();
+        let r = std::panic::catch_unwind(std::panic::AssertUnwindSafe(|| {
+            if op == 2 {
+                core::mem::forget(t.remove_row(idx));
+            } else {
+                core::mem::forget(t.remove_col(idx));
+            }
+        }));
+        assert!(inv_u8(&t), "ORACLE: shape invariant broken after a leaked drain / rejected remove");
+        end_reached!();
+        return;
+    }
+    let line = if op == 0 { cols } else { rows };
+    let lines: [usize; 3] = [line, 1, 3];
+    for have in lines {
+        for claimed in [have, have.wrapping_sub(1), have + 1, usize::MAX] {
+            for k in 0..(have + 3) {
+                let mut t = mk();
+                let it = Faulty { items: vec![7u8; have], claimed, calls: 0, crash_at: k };
+                let _ = std::panic::catch_unwind(std::panic::AssertUnwindSafe(|| {
+                    if op == 0 {
+                        t.insert_row(idx, it)
+                    } else {
+                        t.insert_col(idx, it)
+                    }
+                }));
+                assert!(inv_u8(&t), "ORACLE: shape invariant broken after a caught panic in insert");
+            }
+        }
+    }
+    end_reached!();
+}
